@@ -72,6 +72,22 @@ macro_rules! run_cmd {
         });
         let scale_min: usize = arg(args, "--scale-min").map(|s| s.parse().unwrap()).unwrap_or(0);
         let limit: usize = arg(args, "--limit").map(|s| s.parse().unwrap()).unwrap_or(usize::MAX);
+        let skip: u64 = arg(args, "--skip").map(|s| s.parse().unwrap()).unwrap_or(0);
+        let progress = arg(args, "--progress").map(|s| s.to_string());
+        let per_scenario_limit: u64 = arg(args, "--scenario-timeout").map(|s| s.parse().unwrap()).unwrap_or(180);
+        // watchdog: a scenario that does not come back is reported (exit 3) instead of hanging the whole run
+        let started = std::sync::Arc::new(std::sync::Mutex::new((0u64, std::time::Instant::now(), false)));
+        {
+            let started = started.clone();
+            std::thread::spawn(move || loop {
+                std::thread::sleep(std::time::Duration::from_millis(500));
+                let g = started.lock().unwrap();
+                if g.2 && g.1.elapsed().as_secs() > per_scenario_limit {
+                    eprintln!("WATCHDOG scenario {} did not return within {} s", g.0, per_scenario_limit);
+                    std::process::exit(3);
+                }
+            });
+        }
         let mut ctx = $modname::Ctx::new(seed);
         let f = std::io::BufReader::new(std::fs::File::open(path).expect("scenario file"));
         let first: u64 = arg(args, "--first-index").map(|s| s.parse().unwrap()).unwrap_or(0);
@@ -86,18 +102,30 @@ macro_rules! run_cmd {
             if (n - first) as usize >= limit {
                 break;
             }
+            if n - first < skip {
+                n += 1;
+                continue;
+            }
+            if let Some(p) = &progress {
+                let _ = std::fs::write(p, format!("{}", n));
+            }
+            {
+                let mut g = started.lock().unwrap();
+                *g = (n, std::time::Instant::now(), true);
+            }
             let v: Value = serde_json::from_str(&line).expect("scenario json");
             let k = v["sc"]["members"].as_array().map(|a| a.len()).unwrap_or(0);
             let sc_scale = if k > scale_min { scale } else { None };
             let (out, _) = $modname::run_scenario(&mut ctx, &v["sc"], n, sc_scale, None);
             *classes.entry(format!("{}/{}", out.prove, out.verify)).or_insert(0) += 1;
+            started.lock().unwrap().2 = false;
             if let Some(msg) = $modname::compare(&v["expect"], &out) {
                 mism.push(json!({"index": n, "group": $modname::GROUP, "seed": seed, "scale": sc_scale.map(|s| format!("{}:{}", s.0, s.1)),
                     "message": msg, "scenario": v}));
             }
             n += 1;
         }
-        let res = json!({"group": $modname::GROUP, "executed": n - first, "classes": classes, "mismatches": mism});
+        let res = json!({"group": $modname::GROUP, "executed": n - first - skip.min(n - first), "classes": classes, "mismatches": mism});
         println!("{}", res);
     }};
 }
